@@ -314,7 +314,8 @@ func (u *upstreamFn) answer(req *dns.Msg) *dns.Msg {
 	resp := &dns.Msg{}
 	resp.SetReply(req)
 	resp.RecursionAvailable = true
-	resp.AuthenticatedData = h%3 == 0
+	// names of the cache-population histories ("cp<k>.…") are always validated
+	resp.AuthenticatedData = h%3 == 0 || strings.HasPrefix(name, "cp")
 	hdr := func(t uint16) dns.RR_Header {
 		return dns.RR_Header{Name: name, Rrtype: t, Class: dns.ClassINET, Ttl: ttl}
 	}
@@ -923,6 +924,8 @@ func runStackMonitor(t *testing.T, r *vkit.Run, httpsDefect bool) {
 		}
 	}
 	r.Extra("stack_upstream_max_hints", maxHints)
+	runCachePopulation(r, scratch, maxHints)
+
 	rqs := requesters()
 	n := r.N(2000, 20000)
 	specs := genRequests(r, n, rqs)
